@@ -316,6 +316,7 @@ pub fn run(run: &mut Run) {
         }
     }
     crate::bigpop::run_family(run, crate::bigpop::BigMode::Order);
+    crate::bigpop::binary_pair_law(run);
     run.states = cases.len() as u64 + bw;
     run.evaluations += bw;
     run.transitions += bw;
